@@ -344,3 +344,60 @@ def rule_lazy_tree(ctx):
                     f.name, ", ".join(sorted(c for c in calls if c)) or "none"))
     ctx.floor("LAZYTREE", 5, n, "(tests of `an_num[type] == -1` in mfan.c)")
     return n
+
+
+def rule_fileinfo_groups(ctx):
+    """ANINFO (C11): ANfileinfo answers four counts, one per annotation type, each with the same little group: if the tree of type
+    K is not built yet, build it (its size is the count), else take `an_num[K]`.  Within one group the test, the build call and the
+    table read must name the same type K, and both arms must store into the same out-parameter; the four groups use four
+    different types.  A group that reads another type's count reports the wrong number as soon as the tree exists (i.e. from the
+    second call on), and ANselect's index range is wrong with it."""
+    from .codec import ast_walk, ast_exprs
+    from .facts import base_var
+    prog = ctx.prog
+    f = prog.func("ANfileinfo")
+    if f is None:
+        ctx.unrecognised("ANINFO", "ANINFO:ANfileinfo", "-", "ANfileinfo not found")
+        return 0
+    groups = []
+
+    def an_idx(e):
+        return [int_val(x[2]) for x in walk(e, True) if x[0] == "idx" and (mem_field(x[1]) or (0, 0))[1] == "an_num" and is_int(x[2])]
+
+    def vis(nn, st):
+        if nn[0] == "if" and an_idx(nn[1]) and not any(a[0] == "if" for a in st):
+            groups.append(nn)
+        return True
+    ast_walk(f.raw.get("ast"), vis)
+    seen_types = []
+    n = 0
+    for k, g in enumerate(groups):
+        n += 1
+        key = "ANINFO:ANfileinfo#%d" % (k + 1)
+        K = an_idx(g[1])[0]
+        types = set(an_idx(g[1]))
+        outs = set()
+        for arm in (g[2], g[3]):
+            if arm is None:
+                continue
+            for e in ast_exprs(arm):
+                types |= set(an_idx(e))
+                for x in walk(e, True):
+                    if x[0] == "call" and x[1] == "ANIcreate_ann_tree" and len(x[3]) >= 2 and is_int(x[3][1]):
+                        types.add(int_val(x[3][1]))
+                    if x[0] == "asg" and kind(strip(x[2])) == "deref":
+                        outs.add(base_var(x[2]))
+        problems = []
+        if types != {K}:
+            problems.append("the group mixes annotation types %s" % sorted(NAMES.get(t, t) for t in types))
+        if len(outs) != 1:
+            problems.append("its arms store into %s" % (sorted(outs) or "no out-parameter"))
+        if K in seen_types:
+            problems.append("type %s is answered twice" % NAMES.get(K, K))
+        seen_types.append(K)
+        if problems:
+            ctx.violated("ANINFO", key, f.where(g[4]), "; ".join(problems) + ": the count reported for this kind of annotation is that of another kind")
+        else:
+            ctx.holds("ANINFO", key, f.where(g[4]), "%s -> *%s, one type throughout" % (NAMES.get(K, K), sorted(outs)[0]), nontrivial=True)
+    ctx.floor("ANINFO", 4, n, "(count groups of ANfileinfo)")
+    return n
